@@ -38,6 +38,8 @@ MAXPROCS = int(os.environ.get("VERIF_PROCS", "16"))
 def env_base():
     e = dict(os.environ)
     e.update(GOENV)
+    # a data race ends the process at once, so the journalled case is the racing one
+    e["GORACE"] = "halt_on_error=1"
     return e
 
 
@@ -88,6 +90,8 @@ def run_replay(binary, path, workdir, tag):
     except subprocess.TimeoutExpired:
         return "died", "replay timed out"
     out = p.stdout
+    if "WARNING: DATA RACE" in out:
+        return "fails", out
     if "REPLAY-HOLDS" in out and p.returncode == 0:
         return "holds", out
     if "REPLAY-FAILS" in out:
@@ -209,7 +213,7 @@ def check_in(prop, tier, spec, seed, workdir, t0):
         if not rp.endswith(".json"):
             continue
         nreplay += 1
-        status, out = run_replay(binary, rp, workdir, "r%d" % i)
+        status, out = run_replay(rbinary if need_race else binary, rp, workdir, "r%d" % i)
         rel = os.path.relpath(rp, ROOT)
         if os.path.normpath(rp) in witness:
             f = witness[os.path.normpath(rp)]
@@ -514,15 +518,16 @@ def cmd_replay(path):
     workdir = os.path.join(ROOT, "work", "replay.%d" % os.getpid())
     os.makedirs(workdir, exist_ok=True)
     try:
-        binary = build(workdir, False)
-        if binary is None:
-            return 2
-        status, out = run_replay(binary, os.path.abspath(path), workdir, "x")
-        log(tail(out, 30))
         try:
             prop = json.load(open(path)).get("property", "?")
         except Exception:
             prop = "?"
+        race = prop in PROPS and any(l.get("race") for l in PROPS[prop]["legs"])
+        binary = build(workdir, race)
+        if binary is None:
+            return 2
+        status, out = run_replay(binary, os.path.abspath(path), workdir, "x")
+        log(tail(out, 30))
         if status == "holds":
             return 0
         if status in ("fails", "died"):
